@@ -16,14 +16,39 @@ impl JsError {
 
 #[verifier::external_body]
 struct JsString { _p: () }
+impl JsString {
+    // TRUSTED: cheap_clone is a reference-count bump; the clone is the same string
+    #[verifier::external_body]
+    fn cheap_clone(&self) -> (r: JsString)
+        ensures r == *self,
+    { unimplemented!() }
+}
 
 #[verifier::external_body]
 #[verifier::accept_recursive_types(K)]
 #[verifier::accept_recursive_types(V)]
 struct FxHashMap<K, V> { _p: core::marker::PhantomData<(K, V)> }
+// TRUSTED model of the hash map used for constant de-duplication: a finite map whose key equality is
+// the keys' (content) equality - for JsString (Eq/Hash by content) and u64 this is the std contract.
 impl<K, V> FxHashMap<K, V> {
+    uninterp spec fn view(&self) -> Map<K, V>;
+
     #[verifier::external_body]
-    fn default() -> Self { unimplemented!() }
+    fn default() -> (m: Self)
+        ensures m@ == Map::<K, V>::empty(),
+    { unimplemented!() }
+
+    #[verifier::external_body]
+    fn get<'a>(&'a self, k: &K) -> (r: Option<&'a V>)
+        ensures
+            r is Some <==> self@.contains_key(*k),
+            r is Some ==> *(r->Some_0) == self@[*k],
+    { unimplemented!() }
+
+    #[verifier::external_body]
+    fn insert(&mut self, k: K, v: V) -> (r: Option<V>)
+        ensures final(self)@ == old(self)@.insert(k, v),
+    { unimplemented!() }
 }
 
 // TRUSTED std contract (vstd has none): Option::is_none_or(f) == match self { None => true, Some(x) => f(x) }
@@ -34,6 +59,22 @@ pub assume_specification<T, F: FnOnce(T) -> bool>[ Option::<T>::is_none_or ](o: 
         o is None ==> b,
         o is Some ==> f.ensures((o->Some_0,), b),
 ;
+
+// TRUSTED wrapper for rule R7 (`if let Some(&x) = e` -> `if let Some(x) = vf_copied(e)`): Option::copied
+#[verifier::external_body]
+fn vf_copied<T: Copy>(o: Option<&T>) -> (r: Option<T>)
+    ensures
+        r is Some <==> o is Some,
+        o is Some ==> r->Some_0 == *(o->Some_0),
+{ o.copied() }
+
+// TRUSTED: f64::to_bits as an uninterpreted injective-enough view (only equality of bit patterns is used)
+uninterp spec fn f64_bits(n: f64) -> u64;
+
+#[verifier::external_body]
+fn vf_to_bits(n: f64) -> (b: u64)
+    ensures b == f64_bits(n),
+{ n.to_bits() }
 
 // ---- RegisterAllocator: abstract view and representation invariant -----------------------------
 impl RegisterAllocator {
@@ -200,6 +241,22 @@ impl BytecodeBuilder {
     spec fn wf(&self) -> bool {
         &&& self.registers.wf()
         &&& sm_wf(self.source_map@, self.code@.len() as int)
+        &&& self.pool_wf()
+    }
+
+    // constant de-duplication: every remembered index points at the constant it was remembered for
+    spec fn pool_wf(&self) -> bool {
+        &&& forall|s: JsString| #[trigger] self.string_map@.contains_key(s) ==> (self.string_map@[s] as int) < self.constants@.len()
+                && self.constants@[self.string_map@[s] as int] == Constant::String(s)
+        &&& forall|b: u64| #[trigger] self.number_map@.contains_key(b) ==> (self.number_map@[b] as int) < self.constants@.len()
+                && (self.constants@[self.number_map@[b] as int] is Number)
+                && f64_bits(self.constants@[self.number_map@[b] as int]->Number_0) == b
+    }
+
+    // the constant pool only grows: existing indices keep their constant
+    spec fn pool_extends(&self, o: &BytecodeBuilder) -> bool {
+        &&& self.constants@.len() >= o.constants@.len()
+        &&& forall|j: int| 0 <= j < o.constants@.len() ==> self.constants@[j] == o.constants@[j]
     }
 
     // frame: everything except `code` / `source_map`
